@@ -2,7 +2,7 @@
 import networkx as nx
 
 from tsg.facts import DB, strip, txt, callee, call_args, call_object, walk, const_val, short, callee_node
-from tsg.flow import var_of, base_var, cond_edges_dominating
+from tsg.flow import var_of, base_var, cond_edges_dominating, is_reachable
 from tsg.typestate import member_writes, member_of
 from tsg.effects import Purity
 from tsg.build import AnalysisBroken
@@ -288,6 +288,279 @@ def run(chk):
                 chk.ob("C14-D6.siblings", f.name + f.sig, "%s family, role %s" % (fam, role), not missing, f.where,
                        ("siblings reject %s, this overload does not" % missing) if missing else "%d guard(s) agree with the family" % len(g))
     chk.floor("C14-D6.siblings", nfam, 20, "family/role comparisons")
+
+    # ------------------------------------------------------------------ D8 late failures inside the grid classes
+    chk.rule("C14-D8.late", "inside the mutating methods of the five grid classes no call that can throw (explicit throw in its call-graph closure, acceleration mode none, feasible under the "
+                            "constants bound at the call site) is reachable after the first write to a member that defines the points, values or surrogate: a rejected call leaves the grid unchanged. "
+                            "Pending-refinement and construction members (needed, updated_*, dynamic_values) and the custom table (re-read only on the constructor path, where a failure discards the object) are exempt")
+    from rules.c12 import gpu_only_call
+    from tsg.peval import PEval
+    from tsg.sym import NotClosedForm, to_sympy
+    import sympy
+    P2 = Purity(db, skip_call=gpu_only_call)
+    pe = PEval(db)
+    GRIDCLS = ("TasGrid::GridGlobal", "TasGrid::GridSequence", "TasGrid::GridLocalPolynomial", "TasGrid::GridWavelet", "TasGrid::GridFourier")
+    EXEMPT = {"needed", "updated_tensors", "updated_active_tensors", "updated_active_w", "dynamic_values", "custom", "gpu_cache", "gpu_cachef", "acceleration"}
+    allf = [f for fs_ in db.load_all().values() for f in fs_ if not f.file.startswith("@verif")]
+    direct = {}
+    for f in allf:
+        th = [n for n in f.walk() if n.get("k") == "CXXThrowExpr" and is_reachable(f, n) and not any(a.get("k") == "CXXCatchStmt" for a in f.ancestors(n))]
+        if th:
+            direct[(f.key, f.sig)] = th
+    memo = {}
+
+    def may_throw(f, stack=()):
+        k = (f.key, f.sig)
+        if k in memo:
+            return memo[k]
+        if k in stack or len(stack) > 8:
+            return None
+        res = None
+        if k in direct:
+            res = (f, direct[k][0])
+        else:
+            for c in f.calls():
+                if not is_reachable(f, c) or gpu_only_call(f, c):
+                    continue
+                if any(a.get("k") == "CXXTryStmt" for a in f.ancestors(c)):
+                    continue
+                for t in P2.targets(f, c):
+                    r = may_throw(t, stack + (k,))
+                    if r:
+                        res = r
+                        break
+                if res:
+                    break
+        memo[k] = res
+        return res
+
+    def bind(t, c, env_caller, fn_caller):
+        args = call_args(c) if c.get("k") not in ("CXXConstructExpr", "CXXTemporaryObjectExpr") else [x for x in c.get("c", []) if isinstance(x, dict)]
+        env = {}
+        for prm, a in zip(t.params(), args):
+            v = const_val(strip(a))
+            if v is not None:
+                env[prm["did"]] = sympy.Integer(v)
+                continue
+            if env_caller:
+                try:
+                    val = pe.expr(a, dict(env_caller), fn_caller, 0)
+                    if getattr(val, "is_Integer", False):
+                        env[prm["did"]] = val
+                except Exception:
+                    pass
+        return env
+
+    def throws_under(t, env, depth=0):
+        """can t throw when its parameters are bound as in env (constants only)?  Unknown -> True"""
+        k = (t.key, t.sig)
+        if depth > 4:
+            return True
+        # members initialised from bound parameters in a constructor's initialiser list are known as well
+        menv = {}
+        for ini in t.d.get("inits", []) or []:
+            if ini.get("field") and ini.get("init") is not None:
+                try:
+                    v = pe.expr(ini["init"], dict(env), t, 0)
+                    if getattr(v, "is_Integer", False) or v is sympy.true or v is sympy.false:
+                        menv[ini["field"]] = v
+                except Exception:
+                    pass
+
+        def res(n):
+            if n.get("k") == "DeclRefExpr" and n.get("did") in env:
+                return env[n["did"]]
+            if n.get("k") == "MemberExpr" and n.get("field") in menv:
+                return menv[n["field"]]
+            return None
+        def dead(node):
+            edges = list(cond_edges_dominating(t, node))
+            # whole conditions of the enclosing if statements (a disjunction cannot be split into edge facts)
+            prev = node
+            for a in t.ancestors(node):
+                if a.get("k") == "IfStmt" and a.get("cond") is not None:
+                    if a.get("then") is not None and any(x is prev for x in [a["then"]]):
+                        edges.append((a["cond"], True))
+                    elif a.get("else") is not None and any(x is prev for x in [a["else"]]):
+                        edges.append((a["cond"], False))
+                prev = a
+            for cnd, truth in edges:
+                try:
+                    v = to_sympy(cnd, res)
+                    tv = True if v is sympy.true else False if v is sympy.false else None
+                except Exception:
+                    tv = None
+                if tv is not None and tv != truth:
+                    return True
+            return False
+        for th in direct.get(k, []):
+            if not dead(th):
+                return True
+        init_ids = {id(x) for ini in (t.d.get("inits", []) or []) if ini.get("init") is not None for x in walk(ini["init"])}
+        for c2 in t.calls():
+            if (id(c2) not in init_ids and not is_reachable(t, c2)) or gpu_only_call(t, c2) or any(a.get("k") == "CXXTryStmt" for a in t.ancestors(c2)):
+                continue
+            if id(c2) not in init_ids and env and dead(c2):
+                continue
+            for t2 in P2.targets(t, c2):
+                if may_throw(t2) and throws_under(t2, bind(t2, c2, env, t), depth + 1):
+                    return True
+        return False
+
+    def feasible_at(f, c, t):
+        return throws_under(t, bind(t, c, {}, f))
+
+    wmemo = {}
+
+    def writes_own_members(t, depth=0):
+        k = (t.key, t.sig)
+        if k in wmemo:
+            return wmemo[k]
+        wmemo[k] = True        # recursion guard: assume it writes
+        res = bool([1 for w, fld, kd in member_writes(t, into_lambda=False) if is_reachable(t, w)])
+        if not res and depth < 3:
+            for c, t2 in P2.this_calls(t) if hasattr(P2, "this_calls") else []:
+                if writes_own_members(t2, depth + 1):
+                    res = True
+                    break
+        wmemo[k] = res
+        return res
+
+    def receiver_untouched(f, w):
+        """a non-const method called on a member that (transitively, on its own object) writes nothing is not a change of that member"""
+        ts = P2.targets(f, w)
+        return bool(ts) and not any(writes_own_members(t) for t in ts)
+
+    nlate = 0
+    for f in allf:
+        if f.cls not in GRIDCLS or f.d.get("const") or f.d.get("isctor") or f.d.get("isdtor") or f.d.get("islambda"):
+            continue
+        last = short(f.name)
+        if last.startswith("read"):
+            continue        # a failed read discards the object under construction (C14-D3 decides the commit at the top level)
+        ws = [(w, short(fld)) for w, fld, kd in member_writes(f, into_lambda=False) if is_reachable(f, w) and short(fld) not in EXEMPT and
+              not (kd == "update" and w.get("k") == "CXXMemberCallExpr" and receiver_untouched(f, w))]
+        if not ws:
+            continue
+        cfg = f.cfg
+        risky = []
+        for c in f.calls(into_lambda=False):
+            if not is_reachable(f, c) or gpu_only_call(f, c) or any(a.get("k") == "CXXTryStmt" for a in f.ancestors(c)):
+                continue
+            for t in P2.targets(f, c):
+                r = may_throw(t)
+                if r and feasible_at(f, c, t):
+                    risky.append((c, t, r))
+                    break
+        if not risky:
+            continue
+        chk.saw(f)
+        for c, t, r in risky:
+            bc = cfg.block_of(c)
+            # a write that is the same statement as the call (member = Type(args), or the call itself through a helper on this object) is atomic:
+            # the new value is built first and assigned only if that succeeded
+            def same_stmt(w):
+                return w is c or any(x is c for x in walk(w)) or any(x is w for x in walk(c))
+            before = [(w, fld) for w, fld in ws if cfg.block_of(w) is not None and bc is not None and not same_stmt(w) and
+                      reach(cfg, cfg.block_of(w)[0], cfg.block_of(w)[1], bc[0], bc[1])]
+            nlate += 1
+            chk.ob("C14-D8.late", f.key + f.sig, "call of %s (may throw in %s)" % (short(t.name), short(r[0].name)), not before, f.loc(c),
+                   "members %s are already changed when the call can still fail" % sorted({fld for w, fld in before})[:6] if before else "",
+                   "every throwing call precedes the first change of the grid")
+    chk.floor("C14-D8.late", nlate, 3, "throwing calls in grid-class mutators that also change the grid")
+
+    # ------------------------------------------------------------------ D7 null arguments
+    chk.rule("C14-D7.null", "a literal null pointer (including a defaulted = nullptr argument) handed to a library function is never dereferenced there: every dereferencing use of the parameter "
+                            "(subscript, *, ->, C-string consumers such as ifstream::open / std::string) is dominated by a null test of that parameter, lies in a branch that is dead for the "
+                            "instantiation, or is forwarded to a parameter that is itself safe")
+
+    def is_null(a):
+        for q in walk(a):
+            k = q.get("k")
+            if k in ("CXXNullPtrLiteralExpr", "GNUNullExpr"):
+                return True
+            if k == "ImplicitCastExpr" and q.get("cast") == "NullToPointer":
+                return True
+            if k in ("CallExpr", "CXXMemberCallExpr", "DeclRefExpr", "ConditionalOperator", "CXXConstructExpr"):
+                return False
+        return False
+
+    def nonnull_guarded(g, use, name):
+        for c, tr in cond_edges_dominating(g, use):
+            t = txt(strip(c)).replace(" ", "")
+            if t in (name + "!=nullptr", name + "!=0", name, "nullptr!=" + name) and tr:
+                return True
+            if t in (name + "==nullptr", name + "==0", "!" + name, "nullptr==" + name) and not tr:
+                return True
+        return False
+
+    def unsafe_uses(g, pidx, depth=0, seen=()):
+        """dereferencing uses of parameter pidx of g that a null argument would reach"""
+        ps = g.params()
+        if pidx >= len(ps) or (g.key, g.sig, pidx) in seen or depth > 4:
+            return []
+        p = ps[pidx]
+        names = {p["did"]: p["name"]}
+        out = []
+        par = g.parent
+        for q in g.walk():
+            if q.get("k") != "DeclRefExpr" or q.get("did") not in names or not is_reachable(g, q):
+                continue
+            # climb through casts / parens
+            cur = q
+            up = par.get(cur.get("id"))
+            while up is not None and up.get("k") in ("ImplicitCastExpr", "ParenExpr", "CStyleCastExpr", "CXXStaticCastExpr", "CXXReinterpretCastExpr", "CXXConstCastExpr"):
+                cur, up = up, par.get(up.get("id"))
+            if up is None:
+                continue
+            k = up.get("k")
+            deref = False
+            if k == "ArraySubscriptExpr" and strip(up["c"][0]) is strip(q):
+                deref = True
+            elif k == "UnaryOperator" and up.get("op") == "*":
+                deref = True
+            elif k == "MemberExpr" and up.get("arrow"):
+                deref = True
+            elif k == "BinaryOperator" and up.get("op") in ("+", "-") and "*" in (up.get("t") or ""):
+                deref = True        # pointer arithmetic feeding an access
+            elif k in ("CallExpr", "CXXMemberCallExpr", "CXXConstructExpr", "CXXOperatorCallExpr"):
+                args = call_args(up) if k != "CXXConstructExpr" else [c for c in up.get("c", []) if isinstance(c, dict)]
+                idx = next((i for i, a in enumerate(args) if any(x is q for x in walk(a))), None)
+                t = db.resolve(up) if k != "CXXConstructExpr" else None
+                cal = callee(up) or up.get("ctor") or ""
+                if t is not None and idx is not None and not cal.startswith("std::"):
+                    inner = unsafe_uses(t, idx, depth + 1, seen + ((g.key, g.sig, pidx),))
+                    if inner and not nonnull_guarded(g, q, names[q["did"]]):
+                        out.append((g, q, "forwarded to %s, where %s" % (short(t.name), inner[0][2])))
+                    continue
+                if cal.startswith("std::") and ("char" in p["t"]) and idx is not None:
+                    deref = True    # C-string consumers of the standard library require a valid string
+                elif cal.startswith("std::copy") or cal.startswith("std::fill"):
+                    deref = True
+            if deref and not nonnull_guarded(g, q, names[q["did"]]):
+                out.append((g, q, "`%s` @%d dereferences %s without a null test" % (txt(up)[:50], up.get("l", 0), names[q["did"]])))
+        return out
+
+    nnull = 0
+    for fns_ in db.load_all().values():
+        for f in fns_:
+            if f.file.startswith("@verif") or "test" in f.file.lower() or "Example" in f.file:
+                continue
+            for c in f.calls():
+                if not is_reachable(f, c):
+                    continue
+                t = db.resolve(c)
+                if t is None:
+                    continue
+                ps = t.params()
+                for i, a in enumerate(call_args(c)):
+                    if i < len(ps) and "*" in ps[i]["t"] and is_null(a):
+                        nnull += 1
+                        chk.saw(t)
+                        bad = unsafe_uses(t, i)
+                        chk.ob("C14-D7.null", f.key + f.sig, "null passed as %s of %s @%d" % (ps[i]["name"] or "argument %d" % i, short(t.name), c.get("l", 0)), not bad, f.loc(c),
+                               bad[0][2] if bad else "", "every dereference of the parameter is behind a null test or in a dead branch")
+    chk.floor("C14-D7.null", nnull, 6, "literal null pointer arguments to library functions")
 
     return ("Static rule discharge over the public API of TasmanianSparseGrid and its call-graph closure: types of all reachable throw expressions, CFG reachability of a throw after a "
             "state write (validate-before-mutate, commit-at-the-end for the readers), presence of a size check before a vector's data pointer is forwarded, and agreement of the "
